@@ -89,6 +89,7 @@ def run(chk):
                 "(final statement kind, fails?, argv shape, profile)")
     chk.assumptions = ["values printed by -c are restricted to kinds whose display is fixed (integers, strings, booleans, chars, arrays of those)"]
     chk.floor = 300
+    chk.rule += "; plus shebang lines with non-ASCII text / odd shapes, final bare-block statements, arguments with leading / trailing white space and a lone '-'"
     work = core.scratch_dir()
     try:
         n = 400 if quick else 4000
